@@ -173,7 +173,15 @@ bool Exec::edit_invalid(Obj &o, const Fault &f) {
 	int badc = bad_index(v, n, m), badr = bad_index(v, m, n);
 	// a few variants are only meaningful when the "bad" index is not accidentally valid
 	auto col_is_bad = [&](int j) { return j < 0 || j >= n; }; auto row_is_bad = [&](int i) { return i < 0 || i >= m; };
-	if (what == "newcol" || what == "addcol" || what == "addcols") {
+	if ((what == "addcols" || what == "addrows") && modn(v / 11, 3) == 0) {
+		// the same fresh name twice within one call, at every pair of positions of a three-entry list
+		static const int pa[3] = {0, 1, 0}, pb[3] = {1, 2, 2}; int k = modn(v, 3);
+		std::string nn[3] = {strf("dupa%d", step), strf("dupb%d", step), strf("dupc%d", step)}; nn[pb[k]] = nn[pa[k]];
+		const char *nm[3] = {nn[0].c_str(), nn[1].c_str(), nn[2].c_str()}; int cnt[3] = {0, 0, 0}, beg[3] = {0, 0, 0}, ind[1] = {0};
+		w = what + strf(":dupname-in-call-%d%d", pa[k], pb[k]);
+		if (what == "addcols") { QArr ob(3), lo(3), up(3); for (int q = 0; q < 3; q++) mpq_set_ui(up.at(q), 3, 1); rv = mpq_QSadd_cols(p, 3, cnt, beg, ind, t.p() + 3, ob.p(), lo.p(), up.p(), nm); }
+		else { QArr rh(3); char ss[3] = {'L', 'G', 'E'}; rv = mpq_QSadd_rows(p, 3, cnt, beg, ind, (const mpq_t *)t.at(3), (const mpq_t *)rh.p(), ss, nm); }
+	} else if (what == "newcol" || what == "addcol" || what == "addcols") {
 		if (modn(v, 2) == 0 && n > 0) { w = what + ":dupname"; const char *nm = M.cols[modn(v / 2, n)].name.c_str(); rv = what == "newcol" ? mpq_QSnew_col(p, t.at(0), t.at(1), t.at(2), nm) : mpq_QSadd_col(p, 0, 0, 0, t.at(0), t.at(1), t.at(2), nm); }
 		else if (what != "newcol") { w = what + ":badrow"; if (!row_is_bad(badr)) { T("  skip"); return false; } int ind[1] = {badr};
 			if (what == "addcol") rv = mpq_QSadd_col(p, 1, ind, t.p() + 3, t.at(0), t.at(1), t.at(2), strf("inv%d", step).c_str());
